@@ -25,3 +25,13 @@ Theorem C13_served_on_loaded_files_is_fresh : forall all d h req, wf_data_b d = 
   served all d h req = fresh_answer (canon d) req.
 Proof. exact served_is_fresh. Qed.
 Print Assumptions C13_served_on_loaded_files_is_fresh.
+
+(* ---- the HTTP handler composed with factories, calculation and renderer (Http.v, Proofs/HttpProofs.v) ---- *)
+From TrV Require Import Params Http Proofs.HttpProofs Properties.Common.
+From TrV Require Import Spec Admissible Optimal Server Render Proofs.ServerInv Proofs.EndToEnd.
+
+Theorem C13_http_history_independent : forall (uuid_of : Params.str -> option nat), forall all d h r dflt,
+  last (fst (http_run uuid_of (start all d) (h ++ [r]))) dflt = fst (http_step uuid_of (start all d) r).
+Proof. exact HttpProofs.http_history_independent. Qed.
+Print Assumptions C13_http_history_independent.
+
